@@ -28,7 +28,9 @@ RULE = ("(1) field level, exhaustive: attr.ib over cmp/eq/order in {None,True,Fa
         "x==y, x!=y, type(x).__eq__(x,y), type(x).__ne__(x,y); (3) scripted comparison objects: for "
         "every participation pattern of 1..3 fields over {eq, eq=False, eq=key} every vector of per-field "
         "== outcomes in {True, False, truthy non-bool, falsy non-bool, raises, NaN-like} with the order and "
-        "number of == calls and the identity of the returned object observed; (4) inheritance chains of "
+        "number of value-level == AND != calls and the identity of the returned object observed (scripted "
+        "objects carry an independent __ne__ script that is not the negation of their __eq__; 35% are int "
+        "subclasses overriding only __eq__); (4) inheritance chains of "
         "2..3 classes (fields added / overridden, classes with eq off that inherit a generated __eq__), "
         "same-class, subclass, superclass, foreign (plain and with its own reflected methods), identical "
         "object and float-NaN operands; (5) classes with 4..5 fields on sampled pairs.  distinct = distinct "
@@ -94,10 +96,28 @@ class World:
         self.rets = {}
         self.log = []
 
-    def scr(self, i):
+    def scr(self, i, kind="s"):
+        """kind 's': plain scripted object with independent __eq__ and __ne__ scripts;
+        'b': int subclass overriding ONLY __eq__ (its != is int's: compares the int payloads)."""
         if i not in self.objs:
-            self.objs[i] = Scr(i, self)
+            if kind == "b":
+                o = ScrInt(i % 3)
+                o.oid, o.world = i, self
+            else:
+                o = Scr(i, self)
+            self.objs[i] = o
         return self.objs[i]
+
+    def play_ne(self, oid):
+        """The INDEPENDENT script of a scripted object's __ne__: deliberately NOT the negation of
+        its __eq__ script (same truth value as ==), so code that asks values `!=` is told apart
+        from code that negates `==`."""
+        o = self.script.get(oid, [["F"], ["F"]])[0]
+        if o[0] == "T":
+            return True
+        if o[0] == "O":
+            return self.ret(bool(o[1]), 600 + oid % 300)
+        return False
 
     def nan(self, i):
         if i not in self.nans:
@@ -130,13 +150,13 @@ class World:
     def value(self, v):
         if v[0] == "i":
             return v[1]
-        if v[0] == "s":
-            return self.scr(v[1])
+        if v[0] in "sb":
+            return self.scr(v[1], v[0])
         return self.nan(v[1])
 
     def enc_back(self, o):
         """Python object seen in a log -> JSON value."""
-        if isinstance(o, Scr):
+        if isinstance(o, (Scr, ScrInt)):
             return ["s", o.oid]
         if isinstance(o, bool):
             return ["i", 424242]
@@ -153,9 +173,15 @@ class Scr:
     def __init__(self, oid, world):
         self.oid, self.world = oid, world
 
+    kind = "s"
+
     def __eq__(self, other):
-        self.world.log.append((self, other))
+        self.world.log.append(("eq", self, other))
         return self.world.play(self.oid, 0)
+
+    def __ne__(self, other):
+        self.world.log.append(("ne", self, other))
+        return self.world.play_ne(self.oid)
 
     __hash__ = object.__hash__
 
@@ -166,6 +192,21 @@ class Scr:
 
     def __repr__(self):
         return "Scr(%d)" % self.oid
+
+
+class ScrInt(int):
+    """A builtin subclass that overrides only __eq__ (scripted, recorded): `a != b` on such values
+    is int.__ne__ on the payloads, unrelated to what __eq__ says."""
+    kind = "b"
+
+    def __eq__(self, other):
+        self.world.log.append(("eq", self, other))
+        return self.world.play(self.oid, 0)
+
+    __hash__ = int.__hash__
+
+    def __repr__(self):
+        return "ScrInt(%d)" % self.oid
 
 
 class Foreign:
@@ -196,8 +237,8 @@ INTFN = {0: lambda v: -v, 1: abs, 2: lambda v: v % 2}
 def _mk_key(k):
     def key(v):
         w = _WORLD[0]
-        if isinstance(v, Scr):
-            return w.scr(100 * (k + 1) + v.oid)
+        if isinstance(v, (Scr, ScrInt)):
+            return w.scr(100 * (k + 1) + v.oid, v.kind)
         if isinstance(v, float):
             return w.nan(100 * (k + 1) + w.nan_ids.get(id(v), 99))
         return INTFN.get(k, lambda z: min(z, 1))(v)
@@ -242,7 +283,7 @@ def coq_layer(spec, fields):
 def coq_val(v):
     if v[0] == "i":
         return "(Vi %d)" % v[1] if v[1] >= 0 else "(Vi (%d))" % v[1]
-    return "(V%s %d)" % (v[0], v[1])
+    return "(V%s %d)" % ("s" if v[0] == "b" else v[0], v[1])
 
 
 def zl(zs):
@@ -411,7 +452,7 @@ def eq_quad(x, y, world):
                lambda: type(x).__eq__(x, y), lambda: type(x).__ne__(x, y)):
         world.log = []
         r = observe(fn)
-        out.append([r, [[world.enc_back(a), world.enc_back(c)] for a, c in world.log]])
+        out.append([r, [[k, world.enc_back(a), world.enc_back(c)] for k, a, c in world.log]])
     return out
 
 
@@ -420,7 +461,8 @@ def _digit(r):
 
 
 def coq_obs1(o):
-    return "(%s, %s)" % (coq_pyres(o[0]), lst("(%s, %s)" % (coq_val(a), coq_val(c)) for a, c in o[1]))
+    return "(%s, %s)" % (coq_pyres(o[0]), lst("(%s %s %s)" % ("CEq" if k == "eq" else "CNe", coq_val(a), coq_val(c))
+                                              for k, a, c in o[1]))
 
 
 def run_chain(inp):
@@ -656,12 +698,13 @@ def scripted_cases(rng, tier):
                         if keyk is not None:
                             opp = ["F"] if (o[0] == "T" or (o[0] == "O" and o[1])) else ["T"]
                             script[fid] = [opp, ["F"]]
-                        xv.append(["s", fid])
+                        vk = "b" if rng.random() < 0.35 else "s"   # int subclass overriding only __eq__
+                        xv.append([vk, fid])
                         r = rng.random()
                         if OUTCOMES[oc] == "nanlike" or r < 0.3:
-                            yv.append(["s", fid])           # the identical object on both sides
+                            yv.append([vk, fid])            # the identical object on both sides
                         elif r < 0.65:
-                            yv.append(["s", fid + 1])
+                            yv.append([rng.choice("sb"), fid + 1])
                             script.setdefault(fid + 1, [["T"], ["F"]])
                             if keyk is not None:
                                 script.setdefault(100 * (keyk + 1) + fid + 1, [["T"], ["F"]])
